@@ -23,7 +23,7 @@ ASSUMPTIONS = [
     "which redraw lands on which repeat position is not fixed by the statement: the model compares multisets and the untouched positions",
     "rows are finite, no signed zeros",
 ]
-REQUIRED_COUNTERS = {"scripts_with_signed_zeros": 100, "scripts_on_nearly_equal_values": 300, "reused_sampler_calls": 300, "scripts": 500, "two_or_more_passes": 50, "budget_exhausted": 20, "zero_budget": 5, "history_with_repeats": 20}
+REQUIRED_COUNTERS = {"generators_returning_non_contiguous_arrays": 200, "budget_assigned_after_construction": 100, "histories_above_10000_rows": 3, "scripts_with_signed_zeros": 100, "scripts_on_nearly_equal_values": 300, "reused_sampler_calls": 300, "scripts": 500, "two_or_more_passes": 50, "budget_exhausted": 20, "zero_budget": 5, "history_with_repeats": 20}
 SHARDS = {"quick": 8, "thorough": 16}
 
 
@@ -76,7 +76,7 @@ def run_script(rng, out):
     space = SearchSpace([[0.0] * dims, [float(width - 1)] * dims], [1.0] * dims, False)
     # the rows the scripted generator hands out live on base + k*step: unit integers, or nearly-equal distinct values
     # (large magnitude with a fine step, tiny steps) - "repeat" means exactly equal rows, nothing looser
-    base, step = [(0.0, 1.0), (0.0, 1.0), (1000.0, 0.001), (0.0, 1e-9), (1e6, 0.5), (-3.0, 1e-7)][int(rng.integers(0, 6))]
+    base, step = [(0.0, 1.0), (0.0, 1.0), (1000.0, 0.001), (0.0, 1e-9), (1e6, 0.5), (-3.0, 1e-7), (1e9, 1.0)][int(rng.integers(0, 7))]   # last: distinct in float64, equal in float32
     if step != 1.0:
         c0 = out["counters"]
         c0["scripts_on_nearly_equal_values"] = c0.get("scripts_on_nearly_equal_values", 0) + 1
@@ -96,17 +96,40 @@ def run_script(rng, out):
             log.append(int(batch_size))
             r = cur["script"][self.pos:self.pos + batch_size].copy()
             self.pos += batch_size
+            if layout == "fortran":
+                return np.asfortranarray(r)
+            if layout == "strided":      # a view into a wider buffer (every second column)
+                buf = np.zeros((len(r), 2 * r.shape[1]))
+                buf[:, ::2] = r
+                return buf[:, ::2]
             return r
 
+    layout = str(rng.choice(["c", "c", "fortran", "strided"]))     # what a generator returns need not be a fresh C-ordered array
     with quiet():
         sampler = Scripted()
     c = out["counters"]
+    if layout != "c":
+        c["generators_returning_non_contiguous_arrays"] = c.get("generators_returning_non_contiguous_arrays", 0) + 1
+    if rng.random() < 0.15:
+        # the budget is a public attribute: assigned after construction it is what counts
+        sampler.max_deduplication_passes = int(rng.integers(0, 7))
+        budget = sampler.max_deduplication_passes
+        c["budget_assigned_after_construction"] = c.get("budget_assigned_after_construction", 0) + 1
     nh = int(rng.integers(0, 21))
     ncalls = int(rng.integers(1, 4))
     for call in range(ncalls):
         if call > 0 and rng.random() < 0.5:
             nh = int(rng.integers(0, 21))      # else: a different history of the same length as in the previous call
-        if rng.random() < 0.4 or nh == 0:
+        if rng.random() < 0.004:
+            nh = int(rng.integers(10500, 13000))   # a long calibration: repeats of OLD rows are repeats too
+            c["histories_above_10000_rows"] = c.get("histories_above_10000_rows", 0) + 1
+        if nh > 10000:
+            # the rows with first coordinate 0 occur only among the OLDEST rows
+            hi = rng.integers(0, width, size=(nh, dims))
+            hi[: nh - 10000, 0] = 0
+            hi[nh - 10000:, 0] = rng.integers(1, width, size=10000)
+            history = lift(hi)
+        elif rng.random() < 0.4 or nh == 0:
             history = lift(rng.integers(0, width, size=(nh, dims)))  # may contain internal repeats
         else:
             allpts = np.array(np.meshgrid(*[np.arange(width)] * dims)).reshape(dims, -1).T.astype(float)
